@@ -27,3 +27,9 @@ func VerifC02AfterEnabledPut() {
 func VerifC02NullNewerThanVersion() {
 	verifVersionsRunFrom([]int{3, 0, 4, 0, 3, 0}, verifParam("steps", 1), false, "C02-latest-promotion-by-created-at", "")
 }
+
+// VerifC02NullOlderThanVersions: from  put(null, unversioned) . enable . put(v1) .
+// put(v2)  continue with symbolic operations: the null version is the oldest.
+func VerifC02NullOlderThanVersions() {
+	verifVersionsRunFrom([]int{0, 3, 0, 0}, verifParam("steps", 1), false, "C02-latest-promotion-by-created-at", "")
+}
